@@ -680,6 +680,40 @@ Proof.
       destruct I2 as (_ & _ & _ & J4 & _). destruct I0 as (_ & _ & _ & K4 & _). lia.
 Qed.
 
+(* two readings of the theorem above, stated separately *)
+Theorem call_return_stack_unchanged s0 to asset a b code amount gas_fwd cgas1 ggas1 s1 ops s2 :
+  Inv s0 ->
+  step s0 (CCall to asset a b code amount gas_fwd cgas1 ggas1) = Some s1 ->
+  run_above (depth s0) s1 ops = Some s2 ->
+  depth s2 = depth s0 ->
+  forall x, v_vm_hi s0 <= x < v_regs s0 REG_SP -> m_data (v_mem s2) x = m_data (v_mem s0) x.
+Proof.
+  intros I H R D. exact (proj1 (proj2 (proj2 (proj2 (call_return_preserves_caller _ _ _ _ _ _ _ _ _ _ _ _ _ I H R D))))).
+Qed.
+
+Theorem call_return_depth s0 to asset a b code amount gas_fwd cgas1 ggas1 s1 ops s2 :
+  Inv s0 ->
+  step s0 (CCall to asset a b code amount gas_fwd cgas1 ggas1) = Some s1 ->
+  run_above (depth s0) s1 ops = Some s2 ->
+  depth s1 = S (depth s0) /\
+  (* while the callee runs the depth stays above the caller's; it is back exactly when the
+     frame pushed by this CALL has been popped, and then the whole frame stack is the caller's *)
+  (depth s2 = depth s0 -> v_frames s2 = v_frames s0) /\
+  (depth s0 <= depth s2)%nat.
+Proof.
+  intros I H R.
+  destruct (step_inv _ _ _ I H) as [I1 _].
+  destruct (call_step_facts _ _ _ _ _ _ _ _ _ _ _ I H) as (_ & Fs & _).
+  split; [unfold depth; rewrite Fs; reflexivity|].
+  split.
+  - intros D. exact (proj1 (proj2 (proj2 (call_return_preserves_caller _ _ _ _ _ _ _ _ _ _ _ _ _ I H R D)))).
+  - match type of Fs with v_frames s1 = ?f0 :: _ =>
+      destruct (run_above_callee (v_frames s0) f0 ops s1 s2 I1 (ex_intro _ [] Fs) R) as (_ & _ & _ & _ & Fr) end.
+    unfold depth. destruct Fr as [[fs Hf] | [Hf _]].
+    + rewrite Hf, app_length. cbn [length]. lia.
+    + rewrite Hf. lia.
+Qed.
+
 (* heap memory the callee allocated stays accessible to the caller: after the return $hp is
    the callee's last $hp, every range at or above it (inside the address space) can be read,
    and the part below the caller's old $hp is even owned by the caller *)
